@@ -169,6 +169,13 @@ V = [
     ("dim-floor-dropped", ["C10"], "DIM-FLOOR", "FockOperationType.compute_dimensions", [("photon_weave/operation/fock_operation.py", "FockOperationType.compute_dimensions", "                    Operation(FockOperationType.Squeeze, **kwargs),\n                    num_quanta,\n                    threshold,\n                )\n                cd = fd.compute_dimensions()\n                if cd < num_quanta + 1:\n                    cd = num_quanta + 1\n", "                    Operation(FockOperationType.Squeeze, **kwargs),\n                    num_quanta,\n                    threshold,\n                )\n                cd = fd.compute_dimensions()\n")]),
     ("partner-self", ["C05", "C04"], "PARTNER", "CompositeEnvelope.measure", [(S + "composite_envelope.py", "CompositeEnvelope.measure", "                    if isinstance(s, Fock):\n                        os = s.envelope.polarization", "                    if isinstance(s, Fock):\n                        os = s.envelope.fock")]),
     ("purity-wide-tolerance", ["C08"], "PURITY", "Fock.contract", [(S + "fock.py", "Fock.contract", "            if jnp.abs(state_trace - 1) < tol:", "            if jnp.abs(state_trace - 1) < 0.5:")]),
+    ("contract-row-of-eigvecs", ["C08"], "CONTRACT-VEC", "Polarization.contract", [(S + "polarization.py", "Polarization.contract", "                self.state = eigenvectors[:, pure_state_index].reshape(-1, 1)", "                self.state = eigenvectors[pure_state_index, :].reshape(-1, 1)")]),
+    ("contract-conj-eigvec", ["C08"], "CONTRACT-VEC", "ProductState.contract", [(S + "composite_envelope.py", "ProductState.contract", "            self.state = eigenvectors[:, pure_state_index].reshape(-1, 1)", "            self.state = jnp.conj(eigenvectors[:, pure_state_index]).reshape(-1, 1)")]),
+    ("contract-fixed-column", ["C08"], "CONTRACT-VEC", "Envelope.contract", [(S + "envelope.py", "Envelope.contract", "            self.state = eigenvectors[:, pure_state_index].reshape(-1, 1)", "            self.state = eigenvectors[:, 0].reshape(-1, 1)")]),
+    ("estimator-abs-parameter", ["C10"], "DIM-NORM", "FockOperationType.compute_dimensions", [("photon_weave/operation/fock_operation.py", "FockOperationType.compute_dimensions", "                    Operation(FockOperationType.Displace, **kwargs),", "                    Operation(FockOperationType.Displace, alpha=abs(kwargs[\"alpha\"])),")]),
+    ("estimator-other-type", ["C10"], "DIM-NORM", "FockOperationType.compute_dimensions", [("photon_weave/operation/fock_operation.py", "FockOperationType.compute_dimensions", "                    Operation(FockOperationType.Expresion, **kwargs),", "                    Operation(FockOperationType.Identity, **kwargs),")]),
+    ("resize-guard-other-member", ["C10", "C17"], "RESIZE", "Envelope.resize_fock", [(S + "envelope.py", "Envelope.resize_fock", "                to = self.trace_out(self.fock)\n                assert isinstance(to, jnp.ndarray)\n                num_quanta = num_quanta_vector(to)", "                to = self.trace_out(self.polarization)\n                assert isinstance(to, jnp.ndarray)\n                num_quanta = num_quanta_vector(to)")]),
+    ("squeeze-real-shortcut", ["C12"], "DEFS", "squeezing_operator", [("photon_weave/_math/ops.py", "squeezing_operator", "    operator = 0.5 * (jnp.conj(zeta) * (destroy @ destroy) - zeta * (create @ create))\n    return expm(operator)", "    if not jnp.iscomplexobj(zeta):\n        return expm(0.5 * jnp.abs(zeta) * (destroy @ destroy - create @ create))\n    operator = 0.5 * (jnp.conj(zeta) * (destroy @ destroy) - zeta * (create @ create))\n    return expm(operator)")]),
     ("evict-missing", ["C05", "C13", "C20"], "BOOK-evict", "ProductState.measure", [(S + "composite_envelope.py", "ProductState.measure", "                # Remove the mesaured state from the product state\n                self.state_objs.remove(state)\n", "")]),
 ]
 
